@@ -379,6 +379,13 @@ class _Run:
         if h.hops:
             ctx.probe("derive-after-hop")
         ctx.state(("derive", h.family, method, bool(h.touched or h.hash_cached), min(h.hops, 2)))
+        if not resp["comparable"]:
+            # the held value is ==-equal to its recipe but writes another document (it came through a hop that
+            # only promises ==): its derivations are not what the recipe's derivations are; not kept
+            ctx.event("derive-not-comparable")
+            ctx.probe("derive-source-writes-another-document")
+            self.call(node, {"op": "drop", "slot": new_slot}, "drop")
+            return
         self.check_verdict(resp["verdict"], f"{P}-DERIVED", f"derive:{method}", base["label"],
                            f"{method}() on node {node.idx} (PYTHONHASHSEED={node.seed}) of a held value (arrived via "
                            f"{h.via}, hops {h.hops}, touched {sorted(h.touched)}, hash cached: {h.hash_cached}) "
